@@ -82,6 +82,10 @@ def run(R):
     r3(R)
     r4(R)
     r5(R)
+    R.rule("C13-R6", "the literal tokenizer's language-tag class is the grammar's: after `@` the N-Triples / N-Quads tokenizer keeps consuming "
+                     "letters, DIGITS and `-` (LANGTAG ::= '@' [a-zA-Z]+ ('-' [a-zA-Z0-9]+)*) - a narrower class cuts `@es-419` in two, the "
+                     "line then has an extra part and is dropped (or, in N-Quads, loaded into a graph named `419`)")
+    r6(R)
 
 
 def shared_dictionary(b, fam, prog, root_a, root_b):
@@ -474,3 +478,34 @@ def r5(R):
              % (sorted(a[1]), sorted(t[1])), ok, where=prog.one("SparqlDatabase::clean_turtle_term", crate="kolibrie").where(),
              detail=None if ok else "a literal with a language tag or a datatype falls through to the quote-trimming fallback in one loader: `\"chat\"@fr` is stored as "
              "`chat\"@fr` by the Turtle loader and as `chat@fr` by the N-Triples loader")
+
+
+def r6(R):
+    prog = R.prog
+    b = R.body("C13-R6", "SparqlDatabase::parse_ntriples_parts", crate="kolibrie")
+    if b is None:
+        return
+    R.saw(b)
+    # the branch taken for '@' (char 64) after a closing quote
+    at_regions = []
+    for bb, i, pl, rv, st in b.assigns():
+        if rv["rv"] == "binop" and rv["op"] == "Eq" and any(F.const_int(o) == 64 for o in (rv["a"], rv["b"])) and not pl["p"]:
+            for bb2, t in b.terms():
+                if t["t"] == "switch" and F.op_local(t["discr"]) == pl["l"]:
+                    at_regions.append(t["otherwise"])
+    for bb, t in b.terms():
+        if t["t"] == "switch":
+            for v, tgt in t["targets"]:
+                if str(v) == "64" and "char" in b.local_ty((F.op_place(t["discr"]) or {"l": 0})["l"]):
+                    at_regions.append(tgt)
+    R.ob("C13-R6", "at-branch", "the tokenizer has a branch for `@` after a literal (found %d)" % len(at_regions), len(at_regions) >= 1, where=b.where())
+    classes = set()
+    for tgt in at_regions:
+        region = {k for k in b.reachable_blocks() if b.dominates(tgt, k)} | {tgt}
+        for c in b.calls():
+            if c.bb in region and c.name().startswith("is_"):
+                classes.add(c.name())
+    digits = {"is_alphanumeric", "is_ascii_alphanumeric", "is_ascii_digit", "is_numeric", "is_digit"}
+    ok = bool(classes & digits)
+    R.ob("C13-R6", "digits-in-langtag", "the language-tag scanner accepts digits (character classes used: %s)" % sorted(classes), ok, where=b.where(),
+         detail=None if ok else "`\"colectivo\"@es-419` is split into `\"colectivo\"@es-` and a stray `419`")
